@@ -12,6 +12,8 @@ STRENGTHENED = {"C02-a": "discount domain extended beyond 200 %", "C03-b": "caug
                 "C22-s": "world R2 extended with price moves, liquidate, update_adl_state, auto_deleverage (cross-collateral cuts with failing pnl swap)",
                 "C25-s": "type-limit timestamp tier judged by TLC through limb arithmetic (BigNum.tla)",
                 "C29-s": "monitor AdjBand on every adjusted price",
+                "C08-r2": "fee-spill scenarios (fees partly paid from the secondary output) + per-event dust bound",
+                "C04-r2": "swap-fee discount factor added to the configuration domain",
                 "C15-s": "SDK pool view bound at the u128 limits",
                 "C40-a": "closed-market parameter combinations in the compared views",
                 "C40-b": "program vs SDK discount compared on non-round factors (also caught by C31)",
